@@ -24,6 +24,16 @@ TraceNew ==
         /\ Report(e, Failing({<<"C06.raised", e.exc = "">>,
                               <<"C06.new_state", e.exc # "" \/ ObjOfRec(e.post) = o>>}))
 
+(* the caller assigns new easy-sample counts to the public attributes of an object   *)
+(* that has already been queried                                                    *)
+TraceSetEasy ==
+  /\ IsEvent("SetEasy")
+  /\ LET e == Log[l]
+         o == [store[e.h] EXCEPT !.ep = e.ep, !.en = e.en]
+     IN /\ store' = (e.h :> o) @@ store /\ UNCHANGED base
+        /\ Report(e, Failing({<<"C06.raised", e.exc = "">>,
+                              <<"C06.new_state", e.exc # "" \/ ObjOfRec(e.post) = o>>}))
+
 Near(a, b, tol) == (a - b <= tol) /\ (b - a <= tol)
 Cells(c) == <<c[1], c[2], c[3], c[4]>>
 
@@ -53,6 +63,9 @@ TraceEER ==
                   (Near(e.e9, src.e9, 20) /\ Near(e.t6, src.t6, 50))>>,
              <<"C06.negation_equivariant", ~(rel /\ e.h = 3 /\ tf) \/
                   (Near(e.e9, src.e9, 20) /\ Near(e.t6, -src.t6, 50))>>,
+             (* the subclass GroupScores built from the same (unsorted) data answers like Scores *)
+             <<"C06.subclass_same_as_plain", ~(rel /\ e.h = 5) \/
+                  (Near(e.e9, src.e9, 20) /\ Near(e.t6, src.t6, 50))>>,
              <<"DRIFT.eer_model", ~ok \/ ~tf \/ e.t[2] = 0 \/
                   (REq(e.e, EERCoded(o)[2]) /\ REq(e.t, EERCoded(o)[1]))>>}))
 
@@ -75,7 +88,7 @@ TraceEERCounts ==
                (e.fn * e.e[2] - e.e[1] * np <= e.e[2] /\ e.e[1] * np - e.fn * e.e[2] <= e.e[2])>>,
           <<"C06.zero_eer_means_no_errors", ~ok \/ ~e.e_is_zero \/ (e.fp = 0 /\ e.fn = 0)>>}))
 
-Next == TraceNew \/ TraceEER \/ TraceEERCounts
+Next == TraceNew \/ TraceEER \/ TraceEERCounts \/ TraceSetEasy
 Spec == Init /\ [][Next]_vars
 AllConsumed == TLCGet("stats").diameter - 1 = Len(Log)
 =============================================================================
